@@ -81,7 +81,7 @@ fn helper_items(f: &Field, owner: &str, out: &mut String) {
         let DefaultKind::Fn(v) = &f.default else { panic!("AbiCtor needs DefaultKind::Fn") };
         writeln!(
             out,
-            "pub struct Ctor_{o}_{n};\nimpl ValueConstructor<{t}> for Ctor_{o}_{n} {{ fn make_value() -> {t} {{ <{t} as Bridge>::from_val(&{v}) }} }}",
+            "#[derive(Debug)]\npub struct Ctor_{o}_{n};\nimpl ValueConstructor<{t}> for Ctor_{o}_{n} {{ fn make_value() -> {t} {{ <{t} as Bridge>::from_val(&{v}) }} }}",
             o = owner,
             n = f.name,
             t = f.ty.rust(),
